@@ -263,6 +263,11 @@ class Plumbing:
                         raise AnalysisError(f"{f.loc(eff.node)}: non-literal JSON key")
                     if p is not None:
                         record(p, Storage("json", key, v, w, v))
+                    elif isinstance(v, ast.Constant) or (isinstance(v, ast.Name) and v.id not in f.params and v.id not in env and v.id.isupper()) \
+                            or (isinstance(v, ast.Name) and v.id.startswith("__") and v.id.endswith("__")):
+                        # a constant next to the state (format / library version): metadata, carries nothing of the calibrator
+                        self.metadata = getattr(self, "metadata", [])
+                        self.metadata.append(("json", key, src(v)))
                     else:
                         self.problems.append(("R1.wrappers", f"save:json:{key}", f"JSON key {key} stores `{src(v)}`, not one of the save parameters", f, v))
             elif eff.api == "pickle.dump":
